@@ -17,7 +17,7 @@ ASSUMPTIONS = ["num-bigint arithmetic is modelled by Lean Int; sha3::Keccak256 b
 
 def cases(rng, tier):
     n = 400 if tier == "quick" else 6000
-    return family_cases(rng, [("exprs", G.gen_exprs)], n, faults=0.0)
+    return family_cases(rng, [("exprs", G.gen_exprs)], n, faults=0.0) + family_cases(rng, [("exprs-wide", G.gen_exprs_wide)], n // 4, faults=0.0)
 
 
 def nontrivial(case, reply):
